@@ -632,3 +632,40 @@ func connWrites(p *kit.Prog, fn *ssa.Function) []ssa.CallInstruction {
 	}
 	return out
 }
+
+// leaf is one value that can flow into a merged value, with the facts under which it does and the
+// (phi, input index) choices that select it.
+type leaf struct {
+	val   ssa.Value
+	facts []kit.Fact
+	path  map[*ssa.Phi]int
+}
+
+// valueLeaves splits v, used in block at, into the values that can flow into it through phis, each
+// with the facts that hold when it does: the facts at `at` plus those of the edges taken.
+func valueLeaves(v ssa.Value, at *ssa.BasicBlock) []leaf {
+	var out []leaf
+	base := kit.FactsAt(at)
+	var walk func(v ssa.Value, facts []kit.Fact, path map[*ssa.Phi]int, depth int)
+	walk = func(v ssa.Value, facts []kit.Fact, path map[*ssa.Phi]int, depth int) {
+		ph, ok := kit.Strip(v).(*ssa.Phi)
+		if !ok || depth > 4 {
+			out = append(out, leaf{kit.Strip(v), facts, path})
+			return
+		}
+		if _, seen := path[ph]; seen {
+			return
+		}
+		for i, e := range ph.Edges {
+			np := map[*ssa.Phi]int{}
+			for k, x := range path {
+				np[k] = x
+			}
+			np[ph] = i
+			nf := append(append([]kit.Fact{}, facts...), kit.EdgeFacts(ph.Block().Preds[i], ph.Block())...)
+			walk(e, nf, np, depth+1)
+		}
+	}
+	walk(v, base, map[*ssa.Phi]int{}, 0)
+	return out
+}
